@@ -14,8 +14,20 @@ def main():
     ap.add_argument('--replay')
     a = ap.parse_args()
     pid = a.pid.upper()
-    mod = importlib.import_module('harness.%s' % pid.lower())
-    sys.exit(core.run_check(mod, a.tier, a.seed, a.replay))
+    try:
+        mod = importlib.import_module('harness.%s' % pid.lower())
+        rc = core.run_check(mod, a.tier, a.seed, a.replay)
+    except Exception:
+        # the machinery itself failed (e.g. the library no longer imports): the property is no longer
+        # shown to hold, say so in the agreed form instead of dying with a traceback
+        import traceback
+        tb = traceback.format_exc()
+        path = core.write_replay(pid, a.seed, {'broken': [{'what': 'the check could not run', 'detail': tb[-3000:]}],
+                                                'tier': a.tier, 'seed': a.seed, 'kind': 'harness or library import failure'})
+        print(tb[-1500:])
+        print('VIOLATION property=%s replay=%s no-failing-input-found' % (pid, path))
+        rc = 1
+    sys.exit(rc)
 
 
 if __name__ == '__main__':
